@@ -43,7 +43,7 @@ func newTierModel(w *World) *tierModel {
 	m.matchFn = w.Fn("rux", "Router.match")
 	m.parse = w.Fn("rux", "Router.parseParamRoute")
 	m.matchRegex = w.Fn("rux", "Route.matchRegex")
-	m.cacheDyn = w.Fn("rux", "Router.cacheDynamicRoute")
+	m.cacheDyn = w.FnOpt("rux", "Router.cacheDynamicRoute") // optional: the store may be written in line
 	m.copyWithParams = w.Fn("rux", "Route.copyWithParams")
 	m.quick = w.Fn("rux", "Router.QuickMatch")
 	return m
@@ -665,8 +665,11 @@ func ruleC02Align(r *Run) {
 				case *ssa.Call:
 					if staticCallee(x) == good {
 						goods = append(goods, in)
-						checkedName = resolvePhi(x.Call.Args[1], p)
-						checkedRe = resolvePhi(x.Call.Args[2], p)
+						// (n, v) are the last two arguments (the receiver, if any, comes first)
+						if na := len(x.Call.Args); na >= 2 {
+							checkedName = resolvePhi(x.Call.Args[na-2], p)
+							checkedRe = resolvePhi(x.Call.Args[na-1], p)
+						}
 					}
 					if isBuiltin(x, "append") {
 						el := litElems(x.Call.Args[1])
@@ -908,6 +911,10 @@ func ruleC02Writers(r *Run) {
 				r.Check(rule, construct, w.InstrPos(st), true, "cleared")
 				continue
 			}
+			if constructionCopy(st) {
+				r.Check(rule, construct, w.InstrPos(st), true, "a new Context is initialised with the source context's own Params (field-wise copy)")
+				continue
+			}
 			ok := false
 			if f == disp {
 				if ex, isEx := st.Val.(*ssa.Extract); isEx && ex.Index == 1 {
@@ -945,41 +952,23 @@ func ruleC02Cache(rule string) func(r *Run) {
 			}
 		}
 		r.Check(rule, "(*Route).copyWithParams:params", cw.Pos(), okP, "the cached copy carries the parameters it was given")
-		// cacheDynamicRoute passes (key, copyWithParams(ps)) of its own arguments
-		cd := m.cacheDyn
-		// the wrapper's parameter and route arguments, by type (the key material may be one or several strings)
-		psI, rtI := -1, -1
-		for i, prm := range cd.Params {
-			if i == 0 {
-				continue
-			}
-			if types.Identical(prm.Type(), types.NewPointer(w.Named("rux", "Route"))) {
-				rtI = i
-			} else if types.Identical(prm.Type(), w.Named("rux", "Params")) {
-				psI = i
-			}
-		}
-		set := w.Fn("rux", "cachedRoutes.Set")
-		for i, c := range callsToFn(cd, set) {
-			a := c.Common().Args
-			ok := len(a) == 3 && psI > 0 && rtI > 0
-			if ok {
-				cc, isC := a[2].(*ssa.Call)
-				ok = isC && staticCallee(cc) == cw && cc.Call.Args[0] == ssa.Value(cd.Params[rtI]) && cc.Call.Args[1] == ssa.Value(cd.Params[psI])
-			}
-			r.Check(rule, fmt.Sprintf("(*Router).cacheDynamicRoute:Set#%d", i+1), w.InstrPos(c), ok, "stores route.copyWithParams(ps) of its own route and parameter arguments")
-		}
-		// in match: the pair cached is the pair returned
+		// where match fills the cache: through the wrapper cacheDynamicRoute or with Set in line
 		mf := m.matchFn
-		for i, c := range callsToFn(mf, cd) {
-			a0 := c.Common().Args
-			if psI < 0 || rtI < 0 || len(a0) <= psI || len(a0) <= rtI {
-				r.Undecided(rule, fmt.Sprintf("(*Router).match:cacheDynamicRoute#%d", i+1), w.InstrPos(c.(ssa.Instruction)), "the wrapper has no (Params, *Route) arguments")
+		sites, problems := cacheStoreSites(w, m)
+		for _, pr := range problems {
+			r.Check(rule, pr.construct, w.InstrPos(pr.in), false, pr.why)
+		}
+		for i, site := range sites {
+			if site.fn != mf {
 				continue
 			}
-			// a[2] = parameters, a[3] = route (by type)
-			a := []ssa.Value{a0[0], nil, a0[psI], a0[rtI]}
-			in := c.(ssa.Instruction)
+			r.Check(rule, fmt.Sprintf("(*Router).cacheDynamicRoute:Set#%d", i+1), w.InstrPos(site.in), site.route != nil && site.ps != nil, "stores route.copyWithParams(ps) of the route and parameters of this match")
+			if site.route == nil || site.ps == nil {
+				continue
+			}
+			// a[2] = parameters, a[3] = route
+			a := []ssa.Value{nil, nil, site.ps, site.route}
+			in := site.in
 			ok := false
 			detail := "the (params, route) pair handed to the cache is the pair returned to the caller"
 			// every return reachable from here returns (a[3], a[2])
@@ -997,12 +986,18 @@ func ruleC02Cache(rule string) func(r *Run) {
 				detail = "the pair stored in the cache differs from the pair returned for this request: a later hit would observe other parameters/route than the miss did"
 			}
 			r.Check(rule, fmt.Sprintf("(*Router).match:cacheDynamicRoute#%d pair", i+1), w.InstrPos(in), ok, detail)
-			// ps comes from the matchRegex call on that same route
-			okPs := false
-			if ex, isEx := a[2].(*ssa.Extract); isEx && ex.Index == 0 {
-				if mc, isC := ex.Tuple.(*ssa.Call); isC && staticCallee(mc) == m.matchRegex && canon(mc.Call.Args[0]) == canon(a[3]) {
-					okPs = true
+			// ps comes from the matchRegex call on that same route (decided per path when the pair travels through merged locals)
+			prov := func(psV, rtV ssa.Value) bool {
+				if ex, isEx := psV.(*ssa.Extract); isEx && ex.Index == 0 {
+					if mc, isC := ex.Tuple.(*ssa.Call); isC && staticCallee(mc) == m.matchRegex && canon(mc.Call.Args[0]) == canon(rtV) {
+						return true
+					}
 				}
+				return false
+			}
+			okPs := prov(a[2], a[3])
+			if !okPs {
+				okPs = allPathsTo(in, func(p *pathCtx) bool { return prov(resolvePhi(a[2], p), resolvePhi(a[3], p)) })
 			}
 			r.Check(rule, fmt.Sprintf("(*Router).match:cacheDynamicRoute#%d provenance", i+1), w.InstrPos(in), okPs, "the cached parameters are those just matched on that route")
 		}
@@ -1186,12 +1181,39 @@ func ruleC01Grammar(r *Run) {
 		fmt.Sprintf("default variable regex %q: cannot match '/' = %v, cannot match the empty string = %v (a plain {name} is exactly one non-empty path segment)", am, ns, ne))
 	// the default is what parseParamRoute uses for variables without a regex
 	pf := w.Fn("rux", "Router.parseParamRoute")
-	ggv := w.Fn("rux", "getGlobalVar")
 	okDef := false
-	for _, c := range callsToFn(pf, ggv) {
-		if s, ok := constString(c.Common().Args[1]); ok && s == am {
-			okDef = true
+	if ggv := w.FnOpt("rux", "getGlobalVar"); ggv != nil {
+		for _, c := range callsToFn(pf, ggv) {
+			if s, ok := constString(c.Common().Args[1]); ok && s == am {
+				okDef = true
+			}
 		}
+	}
+	if !okDef {
+		// the lookup with default written in line: a merge of globalVars[n] (comma-ok) and the constant anyMatch
+		gvar := w.Global("rux", "globalVars")
+		eachInstr(pf, func(in ssa.Instruction) {
+			ph, ok := in.(*ssa.Phi)
+			if !ok {
+				return
+			}
+			hasLookup, hasDef := false, false
+			for _, lf := range valueLeaves(ph) {
+				if s, okc := constString(lf); okc && s == am {
+					hasDef = true
+				}
+				if ex, isEx := lf.(*ssa.Extract); isEx && ex.Index == 0 {
+					if lk, isLk := ex.Tuple.(*ssa.Lookup); isLk && lk.CommaOk {
+						if ld, isLd := lk.X.(*ssa.UnOp); isLd && ld.Op == token.MUL && ld.X == ssa.Value(gvar) {
+							hasLookup = true
+						}
+					}
+				}
+			}
+			if hasLookup && hasDef {
+				okDef = true
+			}
+		})
 	}
 	r.Check(rule, "(*Router).parseParamRoute:default regex", pf.Pos(), okDef, "variables without a custom regex use anyMatch unless a global variable of that name is defined")
 	// the built-in global variables 'any' and 'num' stay inside one segment
@@ -1288,4 +1310,83 @@ func ruleC01Grammar(r *Run) {
 		}
 	}
 	r.Check(rule, "rux.checkAndParseOptional:translation", cpo.Pos(), okO, "'[' ... ']' is translated to an optional non-capturing group")
+}
+
+// cacheSite: one place where the matcher fills the route cache, in the matcher's own terms.
+type cacheSite struct {
+	fn        *ssa.Function
+	in        ssa.Instruction // the wrapper call, or the Set call written in line
+	key       string          // canonical form of the key as the calling function sees it
+	route, ps ssa.Value       // the pair that is copied into the cache (nil: not of the form route.copyWithParams(ps))
+	viaWrap   bool
+}
+
+type cacheProblem struct {
+	construct string
+	in        ssa.Instruction
+	why       string
+}
+
+// cacheStoreSites finds every fill of the route cache from router code: calls of the wrapper
+// cacheDynamicRoute (when it exists; the key/route/parameters it stores are expressed through
+// the call's arguments) and direct calls of cachedRoutes.Set.
+func cacheStoreSites(w *World, m *tierModel) ([]cacheSite, []cacheProblem) {
+	set := w.Fn("rux", "cachedRoutes.Set")
+	cw := m.copyWithParams
+	cd := m.cacheDyn
+	var sites []cacheSite
+	var problems []cacheProblem
+	pair := func(v ssa.Value) (route, ps ssa.Value) {
+		cc, ok := v.(*ssa.Call)
+		if !ok || staticCallee(cc) != cw || len(cc.Call.Args) != 2 {
+			return nil, nil
+		}
+		return cc.Call.Args[0], cc.Call.Args[1]
+	}
+	for _, f := range w.Funcs {
+		if cd != nil && f == cd {
+			continue
+		}
+		if f.Pkg == nil || f.Pkg.Pkg.Path() != modPath {
+			continue
+		}
+		if recv := f.Signature.Recv(); recv != nil && isNamedPtr(recv.Type(), w.Named("rux", "cachedRoutes")) {
+			continue // the cache's own methods
+		}
+		for _, c := range callsToFn(f, set) {
+			a := c.Common().Args
+			rt, ps := pair(a[2])
+			sites = append(sites, cacheSite{fn: f, in: c.(ssa.Instruction), key: canon(a[1]), route: rt, ps: ps})
+		}
+		if cd == nil {
+			continue
+		}
+		for _, c := range callsToFn(f, cd) {
+			inner := callsToFn(cd, set)
+			if len(inner) != 1 {
+				problems = append(problems, cacheProblem{"(*Router).cacheDynamicRoute:Set sites", c.(ssa.Instruction), fmt.Sprintf("the wrapper has %d Set calls (one expected)", len(inner))})
+				continue
+			}
+			ia := inner[0].Common().Args
+			site := cacheSite{fn: f, in: c.(ssa.Instruction), viaWrap: true, key: canonSubst(ia[1], cd.Params, c.Common().Args)}
+			if !flowsOnlyFromParams(ia[1], cd) {
+				problems = append(problems, cacheProblem{"(*Router).cacheDynamicRoute:Set key#1", inner[0].(ssa.Instruction), "the wrapper stores under a key that is not a function of the key material it was given"})
+			}
+			if rt, ps := pair(ia[2]); rt != nil {
+				idx := func(v ssa.Value) int {
+					for i, prm := range cd.Params {
+						if ssa.Value(prm) == v {
+							return i
+						}
+					}
+					return -1
+				}
+				if ri, pi := idx(rt), idx(ps); ri >= 0 && pi >= 0 && ri < len(c.Common().Args) && pi < len(c.Common().Args) {
+					site.route, site.ps = c.Common().Args[ri], c.Common().Args[pi]
+				}
+			}
+			sites = append(sites, site)
+		}
+	}
+	return sites, problems
 }
